@@ -37,7 +37,7 @@ pub unsafe fn mk_vec<Tr: ?Sized + Trait, T: 'static>(k: usize, len: usize, cap: 
     gh.v[k].build_size = size_of::<T>();
     gh.v[k].build_align = core::mem::align_of::<T>();
     AnyVec::from_raw_parts(RawParts {
-        mem_builder: GhostB { k: k + 1, fixed },
+        mem_builder: GhostB { k: k + 1, fixed, build_cap: g().next_build_cap },
         mem_handle: GhostHandle { k },
         capacity: cap,
         len,
